@@ -35,6 +35,7 @@ def parseRes : List String → Option Res
   | "settings" :: n :: _ => n.toNat?.map fun k => .frame (.settings k)
   | "direct" :: _ => some (.frame .direct)
   | "bad" :: _ => some (.frame .bad)
+  | "frag" :: _ => some (.frame .frag)
   | "eof" :: _ => some .eof
   | "err" :: _ => some .err
   | _ => none
